@@ -64,3 +64,37 @@ class BoomPool(RecPool):
 
 
 PLUGINS = {c.__name__: c for c in (Ctl, Deco, EagerDeco, BoomDeco, BoomCtl, ThePool, BoomPool)}
+
+
+# -- argument-valued plugins ---------------------------------------------------------------------------
+import copy  # noqa: E402
+
+ARGLOG = []
+
+
+class Arg:
+    """an argument value built by a factory / tag; remembers what it saw when it was called"""
+
+    def __init__(self, *args, **kwargs):
+        self.args, self.kwargs = args, kwargs
+        try:
+            self.snapshot = copy.deepcopy((args, kwargs))
+        except Exception:
+            self.snapshot = None
+        ARGLOG.append(self)
+
+
+def make_arg(*args, **kwargs):
+    return Arg(*args, **kwargs)
+
+
+@yaml_tag(eager=True)
+class EagerArg(Arg):
+    pass
+
+
+class LazyArg(Arg):
+    pass
+
+
+PLUGINS.update({"EagerArg": EagerArg, "LazyArg": LazyArg})
